@@ -44,6 +44,7 @@ m = {
            "baseline_off_cmd": BASELINE, "source_commits": hooks_commits, "add_only": True},
  "engines": [
    {"name": "SecureChannel", "path": "spec/SecureChannel.tla", "serves_properties": ["C02", "C12", "C15"], "kind_free_text": "TLA+ spec of the AES-GCM stream pair with adversary, counters, export/import; Gen_SecureChannel.tla emits behaviours; harness/internal/chanreplay replays them"},
+   {"name": "StreamEndpoint_Trace", "path": "spec/StreamEndpoint_Trace.tla", "serves_properties": ["C02", "C12", "C15"], "kind_free_text": "trace validation (code -> spec): events from the guarded hooks in /repo/stream (replay traffic and the repository's own stream/message tests) are validated by TLC against the per-endpoint projection StreamEndpoint.tla"},
  ] + globals().get("EXTRA_ENGINES", []),
  "checks": [],
  "not_applicable": [{"property_id": k, "reason": v} for k, v in sorted(PENDING.items())],
